@@ -756,9 +756,9 @@ class Xor2(Logic):
         self.b = self.addIn("b", b)
         self.r = self.addOut("r", r)
 
-        mid = self.wire("Mid", a.getWidth())
-        xout = self.wire("XOut", a.getWidth())
-        yout = self.wire("YOut", a.getWidth())
+        mid = self.wire("Mid", r.getWidth())
+        xout = self.wire("XOut", r.getWidth())
+        yout = self.wire("YOut", r.getWidth())
 
         Nand2(self, "NandMid", a, b, mid)
         Nand2(self, "NandX", a, mid, xout)
